@@ -20,4 +20,4 @@ mkdir -p "/tmp/seedrun/ev.$$"
 cd /verif && VERIF_REPO="$WT" VERIF_EVIDENCE_DIR="/tmp/seedrun/ev.$$" timeout 3000 ./check "$P" "$TIER" > /tmp/seedrun/check.$$ 2>&1; C=$?
 echo "check $P $TIER exit $C"
 grep -E "^VIOLATION|^  harness=|^KNOWN|HARNESS-ERROR|^$P " /tmp/seedrun/check.$$ | cut -c1-400 | head -20
-rm -f /tmp/seedrun/*.$$
+rm -f /tmp/seedrun/demo0.$$ /tmp/seedrun/demo1.$$ /tmp/seedrun/tests.$$ /tmp/seedrun/check.$$
